@@ -802,6 +802,7 @@ func jsonEscape(c *GenCtx, s string, policy int) string {
 var litAlphabet = []string{"'", "\"", "`", "\\", "\n", "\t", "\x00", "\x1f", "é", "😀", "\ufffd", "\uffff", "a", "b", " ", "/", "u", "n", "\\\\", "\\'", "\\`", "{", "}", "[", "]", ":", ",", "\u2028", "\x7f", "$"}
 
 func genLiterals(c *GenCtx) {
+	genLitAdjacent(c)
 	r := c.Rng
 	n := c.n(6000, 150000)
 	for k := 0; k < n; k++ {
@@ -911,6 +912,34 @@ func genLiterals(c *GenCtx) {
 					}
 				}
 			}
+		}
+	}
+}
+
+// two literals next to each other in the token stream with one punctuation token between them, in every context that
+// allows it, every ordered pair of a pool whose members have their first backslash at different offsets or none: state
+// that a lexer or parser keeps from one literal to the next (an escape offset, a buffer) shows here (seeded J09)
+func genLitAdjacent(c *GenCtx) {
+	pool := []string{"'hello'", "'it\\'s'", "'\\'x'", "'ab\\\\'", "\"name\"", "\"a\\\"b\"", "\"\\\"ab\"", "\"ab\\\"\"", "\"n\\u0061me\"", "\"hello\"",
+		"`\"x\"`", "`\"a\\`b\"`", "`\"\\\\n\"`", "`[\"a\\\"b\"]`", "name", "`1`"}
+	keys := []string{"k", "\"k\"", "\"a\\\"b\"", "\"\\\"ab\"", "\"ab\\\"\"", "\"\\u006b\"", "\"a\\\\b\"", "\"\\n\""}
+	doc := `{"name":"N","hello":"H","a\"b":"Q","\"ab":"R","ab\"":"S","k":"K","x":"X","a\\b":"B"}`
+	for _, k := range keys {
+		for _, v := range pool {
+			c.add("lit-adjacent", "{"+k+": "+v+"}", doc)
+			c.add("lit-adjacent", "{"+k+":"+v+", z: "+v+"}", doc)
+			c.add("lit-adjacent", "@.{"+k+": "+v+"}", doc)
+			c.add("lit-adjacent", "[@][*].{"+k+": "+v+"}", doc)
+		}
+	}
+	for _, a := range pool {
+		for _, b := range pool {
+			c.add("lit-adjacent", "["+a+", "+b+"]", doc)
+			c.add("lit-adjacent", a+" == "+b, doc)
+			c.add("lit-adjacent", "not_null("+a+","+b+")", doc)
+			c.add("lit-adjacent", "{p: "+a+", \"q\\\"\": "+b+"}", doc)
+			c.add("lit-adjacent", a+" || "+b, doc)
+			c.add("lit-adjacent", "@."+a+" | "+b, doc)
 		}
 	}
 }
